@@ -333,8 +333,13 @@ mod verif_body_c19 {
 
     include!("gen_c19.rs");
 
+    // through the real BodyReader enum (slow, see above): caller buffer smaller than what one
+    // transport read delivered, so that later reads start with bytes left over in the BufReader
+    c19_raw!(c19_q_length_n3_viaenum_r2, Framing::Length, 3, Seg::Whole, 8, 2, true);
+    c19_raw!(c19_q_close_n3_viaenum_r2, Framing::Close, 3, Seg::Whole, 8, 2, true);
     c19_raw!(c19_t_length_n2_viaenum, Framing::Length, 2, Seg::Whole, 8, 1, true);
     c19_raw!(c19_t_close_n2_viaenum, Framing::Close, 2, Seg::OneByte, 8, 8, true);
+    c19_raw!(c19_t_length_n4_viaenum_r3, Framing::Length, 4, Seg::Max(3), 8, 3, true);
 
     verif_harness!(c19_qtwin_chunked, 40, {
         let case = Case::chunked(&[ch(2), ch(1)], 0, false);
